@@ -16,7 +16,7 @@ CHECKS = {
         deep=True,      # the thorough tier adds --deep (see bounds)
         level="exploration",
         runs=[dict(name="codec", target="h_codec", args=[], quick=[], thorough=[])],
-        deadline=dict(quick=150, thorough=900),
+        deadline=dict(quick=300, thorough=1350),
         rule=("every input of the stated alphabets/lengths is run once (complete enumeration, no sampling); a case is non-trivial when the "
               "decoder/resolver/finder accepted it and a value comparison took place: encode->decode round trips, accepted candidate "
               "encodings, resolved address literals (incl. print/serialize/dup round trips), JSON searches that found a member "
